@@ -45,7 +45,10 @@ Definition crash (l : local) : local := mk_loc (lm l) (pc l) (ra l) (rp l) Crash
 Definition set_ra (l : local) (b : bool) : local := mk_loc (lm l) (pc l) b (rp l) (st l).
 Definition set_rp (l : local) (b : bool) : local := mk_loc (lm l) (pc l) (ra l) b (st l).
 
-(** one atomic step of a running thread *)
+(** One atomic step of a running thread.  Every step is exactly one EVENT: one read or write of a shared
+    recorder field (self._active_recording, ._active_recording_parameters, ._force_sample), one call that
+    hands the recording to the cassette (abort_recording / save_recording), or - in the repaired code - one
+    region protected by self._finalization_lock.  Computation on locals is merged into the preceding event. *)
 Definition step (v : variant) (l : local) (sh : shared) : local * shared :=
   match st l with
   | Done | Crashed => (l, sh)
@@ -54,24 +57,27 @@ Definition step (v : variant) (l : local) (sh : shared) : local * shared :=
     (* ---- discard_recording (:106-114) ---- *)
     | Legacy, MDiscard, 0 => if ar sh then (goto l 1, sh) else (finish l, sh)                 (* if self._active_recording is not None *)
     | Legacy, MDiscard, 1 => if ar sh then (goto l 2, sh) else (crash l, sh)                  (* self._active_recording.id *)
-    | Legacy, MDiscard, 2 => if ar sh then (goto l 3, mk_sh (ar sh) (ap sh) (fs sh) (bump_fin (fin sh)))
-                             else (crash l, sh)                                               (* abort_recording(self._active_recording) *)
-    | Legacy, MDiscard, 3 => (goto l 4, mk_sh false (ap sh) (fs sh) (fin sh))                 (* _reset: _active_recording = None *)
-    | Legacy, MDiscard, 4 => (goto l 5, mk_sh (ar sh) false (fs sh) (fin sh))                 (* _active_recording_parameters = None *)
+    | Legacy, MDiscard, 2 => (goto (set_ra l (ar sh)) 3, sh)                                  (* argument of abort_recording: self._active_recording *)
+    | Legacy, MDiscard, 3 => if ra l then (goto l 4, mk_sh (ar sh) (ap sh) (fs sh) (bump_fin (fin sh)))
+                             else (crash l, sh)                                               (* abort_recording(None): None.close() *)
+    | Legacy, MDiscard, 4 => (goto l 5, mk_sh false (ap sh) (fs sh) (fin sh))                 (* _reset: _active_recording = None *)
+    | Legacy, MDiscard, 5 => (goto l 6, mk_sh (ar sh) false (fs sh) (fin sh))                 (* _active_recording_parameters = None *)
     | Legacy, MDiscard, _ => (finish l, mk_sh (ar sh) (ap sh) false (fin sh))                 (* _force_sample = False *)
     | Fixed, MDiscard, 0 => if ar sh then (goto (set_ra l true) 1, mk_sh false false false (fin sh)) else (finish l, sh)   (* _detach_active_recording, under the lock *)
     | Fixed, MDiscard, _ => (finish l, mk_sh (ar sh) (ap sh) (fs sh) (bump_fin (fin sh)))     (* abort_recording(recording) *)
-    (* ---- finally of start_recording (:80-104) ---- *)
+    (* ---- finally of start_recording (:80-104); sampling rate < 1, so the parameters and the id are used ---- *)
     | Legacy, MFinalise, 0 => if ar sh then (goto l 1, sh) else (finish l, sh)
     | Legacy, MFinalise, 1 => (goto (set_ra l (ar sh)) 2, sh)                                 (* recording = self._active_recording *)
-    | Legacy, MFinalise, 2 => (goto (set_rp l (ap sh)) 3, sh)                                 (* recording_parameters = ... *)
-    | Legacy, MFinalise, 3 => (goto l 4, mk_sh false (ap sh) (fs sh) (fin sh))                (* _reset_active_recording *)
-    | Legacy, MFinalise, 4 => (goto l 5, mk_sh (ar sh) false (fs sh) (fin sh))
-    | Legacy, MFinalise, 5 => (goto l 6, mk_sh (ar sh) (ap sh) false (fin sh))
-    | Legacy, MFinalise, 6 => if ra l && rp l then (goto l 7, sh) else (crash l, sh)          (* recording_parameters.sampling_rate, recording.id *)
+    | Legacy, MFinalise, 2 => (goto l 3, sh)                                                  (* force_sample = self.is_recording_sample_forced *)
+    | Legacy, MFinalise, 3 => (goto (set_rp l (ap sh)) 4, sh)                                 (* recording_parameters = ... *)
+    | Legacy, MFinalise, 4 => (goto l 5, mk_sh false (ap sh) (fs sh) (fin sh))                (* _reset_active_recording *)
+    | Legacy, MFinalise, 5 => (goto l 6, mk_sh (ar sh) false (fs sh) (fin sh))
+    | Legacy, MFinalise, 6 => if ra l && rp l then (goto l 7, mk_sh (ar sh) (ap sh) false (fin sh))
+                              else (crash l, mk_sh (ar sh) (ap sh) false (fin sh))            (* then recording_parameters.sampling_rate, recording.id *)
     | Legacy, MFinalise, _ => (finish l, mk_sh (ar sh) (ap sh) (fs sh) (bump_fin (fin sh)))   (* save_recording / abort_recording *)
-    | Fixed, MFinalise, 0 => if ar sh then (goto (set_rp (set_ra l true) (ap sh)) 1, mk_sh false false false (fin sh)) else (finish l, sh)
-    | Fixed, MFinalise, 1 => if ra l && rp l then (goto l 2, sh) else (crash l, sh)
+    | Fixed, MFinalise, 0 => if ar sh then (if ap sh then (goto (set_rp (set_ra l true) true) 1, mk_sh false false false (fin sh))
+                                            else (crash l, mk_sh false false false (fin sh)))
+                             else (finish l, sh)                                              (* detach under the lock, then use the snapshot *)
     | Fixed, MFinalise, _ => (finish l, mk_sh (ar sh) (ap sh) (fs sh) (bump_fin (fin sh)))
     (* ---- force_sample_recording (:116-125) ---- *)
     | Legacy, MForce, 0 => if ar sh then (goto l 1, sh) else (finish l, sh)
@@ -89,8 +95,7 @@ Definition step (v : variant) (l : local) (sh : shared) : local * shared :=
     | Fixed, MRecordData, _ => (finish (set_ra l (ar sh)), sh)                                (* recording = ...; if None: return; recording[key] = data *)
     (* ---- post-body of an interception (:850-874), same in both variants since /repo 758bfbd ---- *)
     | _, MPost, 0 => (goto (set_ra l (ar sh)) 1, sh)
-    | _, MPost, 1 => (goto (set_rp l (ap sh)) 2, sh)
-    | _, MPost, _ => (finish l, sh)                                                           (* writes into the snapshot, or skips *)
+    | _, MPost, _ => (finish (set_rp l (ap sh)), sh)                                          (* then writes into the snapshot, or skips *)
     (* ---- current_recording_id (:264-274) ---- *)
     | Legacy, MCurrentId, 0 => if ar sh then (goto l 1, sh) else (finish l, sh)
     | Legacy, MCurrentId, _ => if ar sh then (finish l, sh) else (crash l, sh)                (* self._active_recording.id *)
@@ -131,6 +136,6 @@ Definition run (v : variant) (sched : list action) (c : config) : config :=
   fold_left (fun c a => do_action v a c) sched c.
 
 Definition sh0 : shared := mk_sh true true false 0.
-Definition idle_thread : local := mk_loc MPost 2 false false Done.
+Definition idle_thread : local := mk_loc MPost 1 false false Done.
 
 Definition crashed (l : local) : bool := match st l with Crashed => true | _ => false end.
